@@ -156,7 +156,7 @@ theorem measure_decreases (cfg : Cfg) (s s' : State) (e : Event)
           simp only [pwW, hs]
           simp [this.2]
           omega
-        | _ => simp [hs] at hp
+        | _ => simp [hs, Sender.isSending] at hp
     · simp at hstep
   | complete i =>
     simp only [step] at hstep
@@ -179,6 +179,26 @@ theorem measure_decreases (cfg : Cfg) (s s' : State) (e : Event)
         simpa [mu, updPWs] using this
       · simp at hstep
     · simp at hstep
+
+/-- **close_terminates (partial)** — Writer.Close returns after finitely many steps.
+
+Full statement (DESIGN §7): in every reachable state of the repaired protocol in which Close waits, `CloseReturn` or a
+progress event is enabled, and every progress event decreases `mu`; hence Close returns after at most `mu` further
+library steps, whatever the interleaving with newly arriving calls (each adds a bounded amount of work: it is
+refused).  Proved here: exactly that, except that the third disjunct `WaitingBlocked` (a synchronous call waiting
+for a message that no live goroutine holds) is excluded by the message-tracking invariant `accepted ⊆ completed ∪
+held-by-a-live-partition-writer`, see `close_terminates` below when present / docs/notes/C09.md otherwise. -/
+theorem close_terminates_partial (cfg : Cfg) (hfix : cfg.fixed = true) (s : State) (hr : Reachable cfg s)
+    (hwait : s.close = 2) :
+    ((step cfg s .closeReturn).isSome ∨ (∃ e, e.progress = true ∧ (step cfg s e).isSome) ∨ WaitingBlocked s) ∧
+    (∀ e s', e.internal = true → step cfg s e = some s' → mu cfg s' < mu cfg s) := by
+  have hclosed : s.closed = true := (reachable_closed_iff cfg s hr).mp (by omega)
+  refine ⟨progress_core cfg s hwait (reachable_noOpen cfg hfix s hr hclosed), ?_⟩
+  intro e s' he hs
+  exact measure_decreases cfg s s' e hfix hclosed he hs
+
+example : ∃ s, Reachable ⟨3, 2, true, false⟩ s ∧ s.close = 2 ∧ s.wg ≠ 0 :=
+  ⟨_, ⟨[.callBegin 1 [(10, 0)] false, .enter 1, .batch 1, .closeBegin, .closeMark], rfl⟩, by decide, by decide⟩
 
 /-! ### D1: the unrepaired protocol has a reachable state in which Close waits forever -/
 
@@ -251,14 +271,14 @@ theorem ctx_returns (cfg : Cfg) (s : State) (x : Call) (hx : x ∈ s.calls) (hc 
     (x.phase = .waiting → (step cfg s (.leave x.id .ctxErr)).isSome) := by
   constructor
   · intro hp
-    have : hasCall s x.id (fun y => decide (y.phase = .entered) && y.cancelled) = true := by
+    have : hasCall s x.id (fun y => decide (y.phase = .entered) && earlyOk .ctxErr y) = true := by
       simp only [hasCall, List.any_eq_true]
-      exact ⟨x, hx, by simp [hp, hc]⟩
+      exact ⟨x, hx, by simp [hp, hc, earlyOk]⟩
     simp [step, this]
   · intro hp
-    have : hasCall s x.id (fun y => decide (y.phase = .waiting) && y.cancelled) = true := by
+    have : hasCall s x.id (fun y => decide (y.phase = .waiting) && leaveOk s .ctxErr y) = true := by
       simp only [hasCall, List.any_eq_true]
-      exact ⟨x, hx, by simp [hp, hc]⟩
+      exact ⟨x, hx, by simp [hp, hc, leaveOk]⟩
     simp [step, this]
 
 example : (run ⟨3, 2, true, false⟩ State.init [.callBegin 1 [(10, 0)] false, .enter 1, .batch 1, .ctxCancel 1]).map
